@@ -138,16 +138,17 @@ def gen_query(rng, tier):
     return tm
 
 
-def run_query(case, drv):
-    from pgmpy.inference import DBNInference
-    k, T = case["k"], case["T"]
-    q = [t * k + v for v, t in case["q"]]
-    ev = [[t * k + v, s] for v, t, s in case["ev"]]
-    tags = dict(k=k, T=T, nev=len(ev), good=case["good"], mode=case["mode"], named=case.get("labels") is not None)
+def _sig(x):
+    import re
+    return re.sub(r"0x[0-9a-f]+", "0x", x)
+
+
+def dbn_outcome(case, cls):
+    """("exc", type, message) or ("vals", {key: [floats]}) of one DBN query answered by inference class `cls` on a fresh model"""
     try:
         dbn = build_dbn(case)
         dbn.initialize_initial_state()
-        inf = DBNInference(dbn)
+        inf = cls(dbn)
         variables = [(VN[v], t) for v, t in case["q"]]
         evidence = {(VN[v], t): ev_state(case, v, s) for v, t, s in case["ev"]} or None
         if case["mode"] == "forward":
@@ -155,7 +156,47 @@ def run_query(case, drv):
         else:
             res = inf.query(variables, evidence)
     except Exception as e:
-        return fail(f"DBNInference raised {type(e).__name__}: {e}", **tags)
+        return ("exc", type(e).__name__, _sig(str(e))), None, None
+    try:
+        vals = {repr(key): [float(x) for x in f.values.reshape(-1)] for key, f in res.items()}
+    except Exception as e:
+        vals = {"unreadable": _sig(repr(e))}
+    return ("vals", vals), res, evidence
+
+
+def same_as_pinned(case, out):
+    """does the frozen copy of the pinned interface algorithm (harness/pinned) give the same outcome?  Only then can a failure be
+    one of the recorded C17 findings."""
+    try:
+        from harness.pinned.dbn_inference_pinned import DBNInference as Pinned
+        ref = dbn_outcome(case, Pinned)[0]
+    except Exception:
+        return False
+    if ref[0] != out[0]:
+        return False
+    if ref[0] == "exc":
+        return ref == out
+    a, b = ref[1], out[1]
+    if set(a) != set(b):
+        return False
+    for key in a:
+        if len(a[key]) != len(b[key]):
+            return False
+        for x, y in zip(a[key], b[key]):
+            if not (x == y or abs(x - y) <= 1e-12 * max(1.0, abs(x), abs(y)) or (x != x and y != y)):
+                return False
+    return True
+
+
+def run_query(case, drv):
+    from pgmpy.inference import DBNInference
+    k, T = case["k"], case["T"]
+    q = [t * k + v for v, t in case["q"]]
+    ev = [[t * k + v, s] for v, t, s in case["ev"]]
+    tags = dict(k=k, T=T, nev=len(ev), good=case["good"], mode=case["mode"], named=case.get("labels") is not None)
+    out, res, evidence = dbn_outcome(case, DBNInference)
+    if out[0] == "exc":
+        return fail({"msg": f"DBNInference raised {out[1]}: {out[2]}", "same_as_pinned": same_as_pinned(case, out)}, **tags)
     for (v, t), qi in zip(case["q"], q):
         m = drv.call("dbn_posterior", k=k, cpd0=case["cpd0"], cpd1=case["cpd1"], cards=case["card"], T=T, q=[qi],
                      ev=ev if case["mode"] == "query" else [e for e in ev if e[0] // k <= t])
@@ -163,12 +204,12 @@ def run_query(case, drv):
             return skip("zero-probability evidence")
         key = (VN[v], t)
         if key not in res:
-            return fail(f"result has no entry for {key}: {list(res)}", **tags)
+            return fail({"msg": f"result has no entry for {key}: {list(res)}", "same_as_pinned": same_as_pinned(case, out)}, **tags)
         vals = [float(x) for x in res[key].values.reshape(-1)]
         exp = [Fraction(x) for x in m["post"]["vals"]]
         if len(vals) != len(exp) or any(not core.close(a, b, 1e-8) for a, b in zip(vals, exp)):
-            return fail(f"{case['mode']} P({key} | {evidence}) = {vals}, unrolled network gives {[float(x) for x in exp]} "
-                        f"(intra {case['intra']} inter {case['inter']})", **tags)
+            return fail({"msg": f"{case['mode']} P({key} | {evidence}) = {vals}, unrolled network gives {[float(x) for x in exp]} "
+                                f"(intra {case['intra']} inter {case['inter']})", "same_as_pinned": same_as_pinned(case, out)}, **tags)
     return ok(nontrivial=T >= 1 and bool(case["inter"]), **tags)
 
 
